@@ -36,6 +36,39 @@ func loopOnly(b *ssa.BasicBlock) (bool, string) {
 	return true, ""
 }
 
+// checkPairValue: inside a pass over the keys of one side's map, the value taken for side
+// `side` of the pair is that side's *defaulting* accessor applied to the pass's key, or - when
+// the pass is over the same side's own map, where the key is present - the entry itself. A
+// direct map access for a key coming from the other side's map yields 0 instead of the default
+// for an absent key (removals and additions are then compared against 0).
+func checkPairValue(c *fw.Ctx, fn *ssa.Function, st *ssa.Store, side, v string) {
+	i := strings.Index(v, "next(range(*&param:")
+	if i < 0 {
+		return // not a map pass
+	}
+	rest := v[i+len("next(range(*&param:"):]
+	j := strings.Index(rest, "PowerLevels.")
+	if j < 0 {
+		return
+	}
+	iterSide := rest[:j]
+	k := strings.Index(rest, "))#")
+	if k < 0 {
+		return
+	}
+	mapField := rest[j+len("PowerLevels.") : k]
+	rng := "next(range(*&param:" + iterSide + "PowerLevels." + mapField + "))"
+	construct := fmt.Sprintf("%s: the %s value of a %s pair (pass over the %s entries) honours the default", fw.FuncName(fn), side, mapField, iterSide)
+	okAcc := false
+	for _, acc := range []string{"UserLevel", "EventLevel", "NotificationLevel"} {
+		if strings.HasPrefix(v, "(*gmsl.PowerLevelContent)."+acc+"(&param:"+side+"PowerLevels,"+rng+"#1") {
+			okAcc = true
+		}
+	}
+	own := side == iterSide && (v == rng+"#2" || v == "*&param:"+side+"PowerLevels."+mapField+"["+rng+"#1]" || v == "*&param:"+side+"PowerLevels."+mapField+"["+rng+"#1]#0")
+	c.Check(okAcc || own, "1 coverage", construct, c.P.Pos(fw.InstrPos(st)), v, "the "+side+" level is taken as "+v+": for a key that is absent on that side this is 0, not the side's default (users_default / events_default / state_default), so removing or adding an entry is compared with the wrong level")
+}
+
 // coverage computes which PowerLevelContent fields fn compares old-vs-new.
 // scalar field F: a pair whose old side is oldPowerLevels.F and whose new side is newPowerLevels.F;
 // map field F: both old.F and new.F are ranged unconditionally, and a pair is formed per key.
@@ -60,6 +93,7 @@ func plCoverage(c *fw.Ctx, fn *ssa.Function) (scalars map[string]string, maps ma
 				}
 				v := fw.Sig(x.Val)
 				cont := fw.Sig(fa.X)
+				checkPairValue(c, fn, x, side, v)
 				pfx := "*&param:" + side + "PowerLevels."
 				if strings.HasPrefix(v, pfx) {
 					f := strings.TrimPrefix(v, pfx)
@@ -200,6 +234,8 @@ func checkC08(c *fw.Ctx) {
 	checkPLHandler(c, handler)
 	checkV3AndParsers(c, t)
 	checkVersionMatrix(c, "5 version-columns", setOf("checkPowerLevelEvent", "parsePowerLevelsFunc"))
+	// the sender's effective level the comparisons start from (shared with C07.8)
+	checkLevels(c)
 }
 
 func specNotifications(ver string) bool { return !in(ver, "1", "2", "3", "4", "5") }
@@ -375,9 +411,9 @@ func checkV3AndParsers(c *fw.Ctx, t *versionTable) {
 		creators := "slices.Contains(builtin.append(local:*[1]string[:],*local:*gmsl.CreateContent.AdditionalCreators),next(range(*&param:newPowerLevels.Users))#1)"
 		vars := []tvar{{"base", tf}, {"decodes", tf}, {"more", tf}, {"isCreator", tf}}
 		ip := &interp{bools: map[string]string{
-			"(" + v2 + "(param:sender,param:createEvent,param:oldPowerLevels,param:newPowerLevels) == nil)":          "base",
+			"(" + v2 + "(param:sender,param:createEvent,param:oldPowerLevels,param:newPowerLevels) == nil)":     "base",
 			"(encoding/json.Unmarshal((gmsl.PDU).Content(param:createEvent),local:*gmsl.CreateContent) == nil)": "decodes",
-			"next(range(*&param:newPowerLevels.Users))#0":                                                         "more",
+			"next(range(*&param:newPowerLevels.Users))#0":                                                       "more",
 			creators: "isCreator",
 		}}
 		compareTable(c, rule, "v12: no entry of the proposed users map may name a creator", v3, fw.ErrIndex(v3), vars, ip, func(a asg) string {
